@@ -102,7 +102,7 @@ fn old_time(p: &Path) {
     }
 }
 
-fn build_world(root: &Path, world: &J) {
+pub fn build_world(root: &Path, world: &J) {
     let _ = std::fs::remove_dir_all(root);
     std::fs::create_dir_all(root).unwrap();
     let nodes = world.as_array().unwrap();
